@@ -11,7 +11,7 @@ COQ_TARGETS = ["Properties/C09", "Pins/C09"]
 THEOREMS = [("PdfV.Properties.C09", n) for n in
             ["C09_read_your_writes", "C09_get_coherent", "C09_byte_len_fits", "C09_xref_roundtrip", "C09_prefix",
              "C09_save_layout", "C09_parse_ser", "C09_reload", "C09_reload_stream", "C09_locate_xref", "C09_load_table", "C09_reload_untouched", "C09_failed_save_recovers", "C09_second_save",
-             "C09_wf_preserved", "C09_create_nested", "C09_create_is_create_with", "C09_create_with", "C09_conservative_closed"]]
+             "C09_wf_preserved", "C09_create_nested", "C09_create_is_create_with", "C09_create_with", "C09_conservative_closed", "C09_byte_len_boundaries"]]
 ANCHORS = ["file.rs", "xref.rs"]
 if os.environ.get("VP_DEV"):
     COQ_TARGETS, THEOREMS = ["Storage/Run"], []
